@@ -80,6 +80,21 @@ def history_plan(case):
     from .common import SplitMix
 
     rng = SplitMix(h)
+    if (h >> 2) % 3 == 0 and g["di"]:
+        # 'rewire' history: the first question is asked about the graph with ONE directed edge pointing the other way
+        # (same nodes, same edge counts); the object is then edited in place through its public networkx graphs
+        import networkx as nx
+
+        for k in range(len(g["di"])):
+            i = (rng.below(len(g["di"])) + k) % len(g["di"])
+            u, v = g["di"][i]
+            if [v, u] in g["di"]:
+                continue
+            di0 = [e for j, e in enumerate(g["di"]) if j != i] + [[v, u]]
+            if nx.is_directed_acyclic_graph(nx.DiGraph(list(map(tuple, di0)))) or not nx.is_directed_acyclic_graph(nx.DiGraph(list(map(tuple, g["di"])))):
+                g0 = dict(g)
+                g0["di"] = di0
+                return g0, g
     edges = [("d", i) for i in range(len(g["di"]))] + [("b", i) for i in range(len(g["bi"]))]
     drop = {e for e in edges if rng.below(3) == 0} or {edges[rng.below(len(edges))]}
     g0 = dict(g)
@@ -113,6 +128,14 @@ def _carry_lookup(g):
     obj, part, full = _CARRY["obj"], _CARRY["part"], _CARRY["full"]
     have_d = {tuple(e) for e in part["di"]}
     have_b = {frozenset(e) for e in part["bi"]}
+    want_d = {tuple(e) for e in full["di"]}
+    if have_d - want_d:
+        # rewire: the object's public networkx graphs are edited directly
+        for u, v in sorted(have_d - want_d):
+            obj.directed.remove_edge(V(u), V(v))
+        for u, v in sorted(want_d - have_d):
+            obj.directed.add_edge(V(u), V(v))
+        return obj
     for u, v in full["di"]:
         if (u, v) not in have_d:
             obj.add_directed_edge(V(u), V(v))
